@@ -31,10 +31,17 @@ pub trait A {
     fn a1(&self, x: u8) -> u32;
 }
 
-// 2, 3: real functions registered
-#[unimock(api=BMock, unmock_with=[real_b0, real_b1])]
+// 2, 3: real functions registered. The receiver-less provided functions are not mockable but
+// occupy a slot of the unmock_with list (`_`): the registrations of b0 / b1 sit at positions 1 and 3.
+#[unimock(api=BMock, unmock_with=[_, real_b0, _, real_b1])]
 pub trait B {
+    fn version() -> u32 {
+        1
+    }
     fn b0(&self, x: u8) -> u32;
+    fn helper() -> u32 {
+        2
+    }
     fn b1(&self, x: u8) -> u32;
 }
 pub fn real_b0(_: &impl std::any::Any, x: u8) -> u32 {
